@@ -54,6 +54,7 @@ def parseObserved (l : Line) : C11.Observed :=
   | "redirect" => .redirect (bytesOf l "o.loc")
   | "form" => .form (bytesOf l "o.body") (uaTags (list l "ua"))
   | "refused" => .refused
+  | "partial" => .cutOff (bytesOf l "o.body") (uaTags (list l "ua"))
   | _ => .panic
 
 def monitorLine (l : Line) : Option String := C11.monitor (parseInput l) (parseObserved l)
